@@ -116,8 +116,8 @@ def Cell.isMissing : Cell F → Bool
 structure ColCfg (F : Type) where
   cats : List Key := []
   embed : String → List (Val F) := fun _ => []
-  /-- the width of a plain embedding column (`col_stats[col][EMB_DIM]`) -/
-  embDim : Nat := 0
+  /-- the fitted width of a plain embedding column (`col_stats[col][EMB_DIM]`; −1 = not available) -/
+  embDim : Int := -1
 
 /-- the string handed to a text / image embedder: the harness passes `str(cell)` as `.text` -/
 def cellText : Cell F → String
@@ -139,7 +139,7 @@ def encodeCell (cfg : ColCfg F) : Stype → Cell F → List (Val F)
   | .timestamp, .time s => (Cal.components s).map .int
   | .timestamp, _ => Cal.missingComponents.map .int
   | .embedding, .vec v => v
-  | .embedding, .missing => List.replicate cfg.embDim .nan
+  | .embedding, .missing => List.replicate cfg.embDim.toNat .nan
   | .text_embedded, c => cfg.embed (cellText c)
   | .image_embedded, c => cfg.embed (cellText c)
   | _, _ => []       -- missing / empty sequence; anything else is outside the typed domain
@@ -236,11 +236,13 @@ def cellVec : Cell F → List (Val F)
   | .vec v => v
   | _ => []
 
-/-- `EmbeddingTensorMapper.forward` without embedder (with fix 4868d4c): a missing cell becomes a NaN vector
-    as wide as the first non-missing vector OF THE SERIES BEING CONVERTED, then `np.stack`.
-    (a series whose cells are all missing raises in the code; here it yields zero-width rows — outside the domain) -/
-def embeddingForward (cells : List (Cell F)) : MET (Val F) :=
-  let w := match cells.find? (fun c => !c.isMissing) with
+/-- `EmbeddingTensorMapper(emb_dim=col_stats[col][EMB_DIM]).forward` without embedder (fixes 4868d4c, 2af2c8d):
+    a missing cell becomes a NaN vector of the fitted width (of the first non-missing vector of the series when
+    no width was fitted), then `np.stack`.
+    (no fitted width and no vector at all raises in the code; here it yields zero-width rows — outside the domain) -/
+def embeddingForward (embDim : Int) (cells : List (Cell F)) : MET (Val F) :=
+  let w : Nat := if embDim ≥ 0 then embDim.toNat else
+    match cells.find? (fun c => !c.isMissing) with
     | some c => (cellVec c).length
     | none => 0
   metOfRows (cells.map fun c => if c.isMissing then List.replicate w .nan else cellVec c)
@@ -258,19 +260,19 @@ def forward (cfg : ColCfg F) (s : Stype) (labels : List L) (cells : List (Cell F
   | .multicategorical => .mnt (multicatForward cfg.cats labels cells)
   | .sequence_numerical => .mnt (sequenceForward cells)
   | .timestamp => .dense (timestampForward cells)
-  | .embedding => .met (embeddingForward cells)
+  | .embedding => .met (embeddingForward cfg.embDim cells)
   | .text_embedded => .met (embedderForward cfg.embed cells)
   | .image_embedded => .met (embedderForward cfg.embed cells)
   | .text_tokenized => .dense []     -- dictionaries of token tensors are not part of C01/C02/C04
 
 /-- The typed domain of one column (what the harness generates): no token-valued column, the mapper's
     internal missing marker `-1` is neither a fitted category nor a token of a cell, and a plain embedding
-    column has at least one vector and all its vectors have the fitted width. -/
+    column has a fitted width which all its vectors have. -/
 def ColWF (cfg : ColCfg F) (s : Stype) (cells : List (Cell F)) : Prop :=
   s ≠ .text_tokenized ∧
   (s = .multicategorical → missingTok ∉ cfg.cats ∧ ∀ ts, Cell.toks ts ∈ cells → missingTok ∉ ts) ∧
-  (s = .embedding → (∃ c ∈ cells, c.isMissing = false) ∧
-    ∀ c ∈ cells, c.isMissing = false → (cellVec c).length = cfg.embDim)
+  (s = .embedding → 0 ≤ cfg.embDim ∧
+    ∀ c ∈ cells, c.isMissing = false → ((cellVec c).length : Int) = cfg.embDim)
 
 /-- canonical one-column nested tensor holding the given cells -/
 def mntOfCol (cells : List (List α)) : MNT α :=
